@@ -6,6 +6,7 @@ import (
 	"os"
 	"path/filepath"
 	"sort"
+	"strings"
 
 	"github.com/couchbase/moss"
 	"verifsim/simrt"
@@ -153,7 +154,11 @@ func (e *Exec) crashEnumerate(tier string) {
 		if syncing && lastMarkSynced {
 			need = lastMarkJ
 		}
-		if v := e.checkImage(img, need, r.Chance(0.03)); v != "" {
+		pc := 0.03
+		if strings.HasPrefix(desc, "K:torn") {
+			pc = 0.08 // a torn write followed by more writes and a second crash
+		}
+		if v := e.checkImage(img, need, r.Chance(pc)); v != "" {
 			op := "end of trace"
 			if p < len(trace) {
 				op = trace[p].String()
@@ -378,7 +383,7 @@ func (e *Exec) checkImage(img *diskState, need int, cont bool) (verdict string) 
 	}
 	defer os.RemoveAll(dir)
 	res := simrt.Run(simrt.Config{Seed: 1, Policy: simrt.Policy{Kind: "uniform", Sticky: 0.98}, MaxSteps: 100000}, func() {
-		verdict = e.imageVerdict(dir, need, cont)
+		verdict = e.imageVerdict(dir, need, cont, img)
 	})
 	if verdict == "" && res.Violation != nil {
 		verdict = fmt.Sprintf("fault/%s while opening or reading the image: %s", res.Violation.Class, res.Violation.Msg)
@@ -388,7 +393,7 @@ func (e *Exec) checkImage(img *diskState, need int, cont bool) (verdict string) 
 
 // imageVerdict opens the directory with ordinary options in the current task
 // and judges its content ("" = fine).
-func (e *Exec) imageVerdict(dir string, need int, cont bool) (verdict string) {
+func (e *Exec) imageVerdict(dir string, need int, cont bool, img *diskState) (verdict string) {
 	o := e.c.Opts
 	o.ReadOnly = false
 	o.MergerIdleRunTimeoutMS = 0
@@ -449,33 +454,116 @@ func (e *Exec) imageVerdict(dir string, need int, cont bool) (verdict string) {
 		closeAll()
 		return ""
 	}
-	// usable: one more batch, drain, close, reopen
-	b, _ := coll.NewBatch(0, 0)
-	b.Set([]byte("zz-after-crash"), []byte("1"))
-	if err := coll.ExecuteBatch(b, moss.WriteOptions{}); err != nil {
-		closeAll()
-		return fmt.Sprintf("unusable after recovery: ExecuteBatch: %v", err)
+	// usable: more batches (their file operations recorded), drain, close,
+	// reopen - and a second crash at sampled points of that continuation
+	sub.fs.Quiet = false
+	sub.fs.Trace = nil
+	after := []*Node{content.Clone()}
+	nb := 1 + simrt.Choose(2, "cont-batches")
+	for i := 0; i < nb; i++ {
+		b, _ := coll.NewBatch(0, 0)
+		spec := &BatchSpec{}
+		for k := 0; k <= i; k++ {
+			kv := KV{Op: "set", K: []byte(fmt.Sprintf("zz-after-crash-%d", k)), V: bytesRepeat(byte('0'+i), 10+4000*k)}
+			spec.Ops = append(spec.Ops, kv)
+			b.Set(kv.K, kv.V)
+		}
+		if err := coll.ExecuteBatch(b, moss.WriteOptions{}); err != nil {
+			closeAll()
+			return fmt.Sprintf("unusable after recovery: ExecuteBatch: %v", err)
+		}
+		b.Close()
+		n := after[len(after)-1].Clone()
+		n.Apply(spec)
+		after = append(after, n)
+		simrt.Quiesce(50000, 0)
 	}
-	b.Close()
-	simrt.Quiesce(50000, 0)
 	closeAll()
-	st2, coll2, err := moss.OpenStoreCollection(dir, so, spo)
-	if err != nil {
-		return fmt.Sprintf("unusable after recovery: second open fails: %v", err)
+	cont2 := append([]FileOp{}, sub.fs.Trace...)
+	sub.fs.Quiet = true
+	allowed := func(c *Node) bool {
+		cc := c.Canon()
+		for _, n := range after {
+			if n.Canon() == cc {
+				return true
+			}
+		}
+		return false
 	}
-	ss2, _ := coll2.Snapshot()
-	c2, err := dumpSnapshot(ss2)
-	ss2.Close()
-	if err == nil {
-		delete(c2.KV, "zz-after-crash")
-		if len(e.hist.Match(c2)) == 0 {
-			verdict = "unusable after recovery: content after one more batch and a reopen is no prefix any more"
+	readDir := func(d string) (*Node, string) {
+		st2, coll2, err := moss.OpenStoreCollection(d, so, spo)
+		if err != nil {
+			return nil, fmt.Sprintf("open fails: %v", err)
+		}
+		defer func() {
+			coll2.Close()
+			st2.Close()
+			simrt.Quiesce(20000, 0)
+		}()
+		ss2, err := coll2.Snapshot()
+		if err != nil {
+			return nil, fmt.Sprintf("Snapshot fails: %v", err)
+		}
+		defer ss2.Close()
+		c2, err := dumpSnapshot(ss2)
+		if err != nil {
+			return nil, fmt.Sprintf("not readable: %v", err)
+		}
+		return c2, ""
+	}
+	c2, v := readDir(dir)
+	if v != "" {
+		return "unusable after recovery: second open: " + v
+	}
+	if c2.Canon() != after[len(after)-1].Canon() {
+		return "unusable after recovery: content after " + fmt.Sprint(nb) + " more batch(es) and a clean reopen is not the recovered content plus those batches: " + after[len(after)-1].Diff(c2, "")
+	}
+	if img == nil || len(cont2) == 0 {
+		return ""
+	}
+	// second crash: the first image is "the disk"; the continuation's
+	// operations up to a point reach it in order, the last write torn
+	var pts []int
+	for p := range cont2 {
+		switch cont2[p].Kind {
+		case "WRITE", "SYNC", "OPEN", "REMOVE", "TRUNCATE":
+			pts = append(pts, p)
 		}
 	}
-	coll2.Close()
-	st2.Close()
-	simrt.Quiesce(20000, 0)
-	return verdict
+	dir2 := dir + "2"
+	defer os.RemoveAll(dir2)
+	unreg := func() {}
+	for n := 0; n < 4 && len(pts) > 0; n++ {
+		p := pts[simrt.Choose(len(pts), "second-crash-point")]
+		img2 := img.clone()
+		for i := 0; i < p; i++ {
+			img2.apply(&cont2[i])
+		}
+		desc := fmt.Sprintf("prefix of %d continuation ops", p)
+		if op := &cont2[p]; op.Kind == "WRITE" && op.Len > 1 && len(op.Data) >= op.Len {
+			t := 1 + simrt.Choose(op.Len-1, "second-tear")
+			img2.write(op.File, op.Off, op.Data[:t])
+			desc += fmt.Sprintf(" + %d/%d bytes of %s", t, op.Len, op.String())
+		}
+		if err := img2.materialise(dir2); err != nil {
+			break
+		}
+		fs2 := NewFS(dir2, nil)
+		fs2.Quiet = true
+		registerFS(fs2)
+		unreg = func() { unregisterFS(fs2) }
+		c3, v := readDir(dir2)
+		unreg()
+		e.out.Images++
+		e.probe("second-crash-image")
+		if v != "" {
+			return fmt.Sprintf("unusable after recovery: after a second crash (%s) %s", desc, v)
+		}
+		if !allowed(c3) {
+			return fmt.Sprintf("unusable after recovery: after a second crash (%s) the content is neither what the first recovery exposed nor that plus a prefix of the %d batches executed since: %s", desc, nb, after[0].Diff(c3, ""))
+		}
+	}
+	return ""
 }
 
 func genCrash(c *Case, r *simrt.Rand, tier string) {
